@@ -212,6 +212,9 @@ func runC16(r *simrt.Run, tier Tier) Outcome {
 		// an explicit declaration for a predicate that a loaded file defines without one
 		"Package cfg! port(8080).",
 		"Decl fa(A).", "Decl gb(A) bound [/name].", "Decl fa(A). i3(Y) :- nope(Y).", "Decl fc(A). fc(/k1, /k2).",
+		// the same, spelled with the variable names of the implicit declaration that
+		// the explicit one replaces (rule head variables, X0 for a predicate known from facts)
+		"Decl ga(Y).", "Decl gb(Y) bound [/name].", "Decl fa(X0).", "Decl i1(Y) bound [/name].", "Decl gc(Y). i5(Y) :- gc(Y).",
 		// rejected at evaluation time when n0(0) is live (division by zero)
 		"dz(X) :- n0(Y), X = fn:div(6, Y).",
 		// rejected ones
